@@ -101,5 +101,47 @@ def judge(v, prop, out, scen, trace, sig_suffixes, clauses):
         owned += 1
         ev = json.loads(r["event"])
         small = {k: ev[k] for k in ("kind", "depth", "forced", "before", "after", "sender", "logs", "differs", "repeat", "ok")}
-        v.violation("sync/%s/trace-%s" % (ev.get("kind"), r["clause"]), dict(engine="sync", mode="trace", clause=r["clause"], event=small))
+        scn = None
+        try:
+            scn = json.loads(ev.get("src") or "null")
+        except ValueError:
+            pass
+        if isinstance(scn, dict) and "dir" in scn and "op" not in scn:
+            scn = None    # a library session: re-run through the check
+        v.violation("sync/%s/trace-%s" % (ev.get("kind"), r["clause"]),
+                    dict(engine="sync", mode="trace", clause=r["clause"], event=small, scenario=scn))
     return n_traces, n_events, len(rejections), owned
+
+
+def replay_scenario(prop, path, doc):
+    """Re-runs the scenario of a replay file; its events are judged by TraceSync again."""
+    scn = doc.get("scenario")
+    if not scn:
+        raise vlib.Inconclusive("trace finding without a scenario: rerun `bin/check %s`" % prop)
+    scen = os.path.join(vlib.sub("scn"), "one.ndjson")
+    with open(scen, "w") as f:
+        f.write(json.dumps(scn) + "\n")
+    side = os.path.join(vlib.sub("traces"), "one.side")
+    out = vlib.replay(doc.get("engine", "sync"), scen, nshards=1, timeout=300, side_path=side)
+    if out.errors:
+        raise vlib.Inconclusive(str(out.errors))
+    bad = bool(out.failures or out.crashes or out.timeouts)
+    trace = os.path.join(vlib.sub("traces"), "one.ndjson")
+    n = 0
+    with open(trace, "w") as g:
+        if os.path.exists(side):
+            for line in open(side):
+                line = line.strip()
+                if line:
+                    d = json.loads(line)
+                    if d.get("kind") == "sync":
+                        for e in d["docs"]:
+                            g.write(json.dumps(e) + "\n")
+                            n += 1
+    if n:
+        _, _, rejections, _ = vlib.validate_traces("TraceSync", "TraceSync.cfg", trace, max_rejections=5)
+        bad = bad or bool(rejections)
+    if bad:
+        print("VIOLATION property=%s replay=%s" % (prop, path))
+        return 1
+    return 0
